@@ -1,10 +1,11 @@
 SPECIFICATION Spec
 CONSTANTS
   Mods <- MCMods
-  ItemsOf <- MCItems
+  Files <- MCFiles
   Nested <- MCNested
   W = 3
   NestedOrder = "hash"
+  FileOrder = "input"
 INVARIANT OutputIsFunctionOfInput
 PROPERTY Terminates
 CHECK_DEADLOCK FALSE
